@@ -26,6 +26,8 @@ PROGRAMS = [
     "from .shapes import area\nfrom shapes import volume\nimport os.path as p\nsquares = [n * n for n in range(5) if n]\n"
     "async def go(src):\n    return [v async for v in src]\nprint(area, volume, squares, p)\n",
     "count = 0\nfor item in basket:\n    count = count + 1\n    price = item + 1\nprint(count + 1, price * 2)\n",
+    "total = 0\nseen = 0\ndef bump():\n    global total\n    total = total + 1\ndef both():\n    global total, seen\n    seen = 1\n"
+    "raw = b'abc'\nz = 2j\ndef inner():\n    v = 1\n    def g():\n        nonlocal v\n        v = 2\n",
 ]
 
 HAND_PATTERNS = [
@@ -38,6 +40,8 @@ HAND_PATTERNS = [
     "x + 1", "1 + x", "x - 1", "1 - x", "_v_ = None", "_v_ = True", "_v_ = 0", "_v_ = '0'", "_v_ = 0.0", "_v_ = 1", "return ___",
     "from shapes import area", "from shapes import volume", "from .shapes import area", "[_x_ for _x_ in ___]",
     "[___ for ___ in ___]", "[_x_ * _x_ for _x_ in ___ if _x_]", "import os.path as p",
+    "global total", "global total, seen", "global seen, total", "global seen", "raw = b'abc'", "raw = b'zzz'", "_r_ = b'abc'",
+    "_r_ = b''", "z = 2j", "z = 3j", "_z_ = 2j", "nonlocal v", "nonlocal v, w",
     "for _w_ in ___:\n    print(_w_)", "for _w_ in ___:\n    print(len(_w_))", "for _w_ in ___:\n    print(_q_)",
 ]
 
